@@ -89,8 +89,7 @@ by `is None`, never by truthiness).  An edit of the bound computation that chang
 input breaks this theorem (as `start = ind.start or self.shape[i] - 1` did until commit 5f937a6). -/
 theorem gen_is_fixed : Gen.dokSliceBounds = dokSliceBoundsFixed := by
   funext a b c d
-  simp only [Gen.dokSliceBounds, dokSliceBoundsFixed]
-  cases a <;> cases b <;> cases c <;> grind
+  exact Gen.dokSliceBounds_eq a b c d
 
 /-- **setitem_refines_fixed.**  The reference bounds satisfy the statement for every key in the grammar. -/
 theorem setitem_refines_fixed [DecidableEq α] (d : DOK α) (key : List KeyPart) (v : Val α)
